@@ -2,6 +2,7 @@
 from vlib import engine
 from vlib.engine import ModelRun
 from checks.c03 import C03
+from checks.c04 import C04, W as COWW, R as COWR
 from checks.c15 import C15, AG, LS
 from checks.c16 import C16, A as DDA
 from checks.c17 import C17
@@ -107,7 +108,23 @@ class C20DD(C16):
                              ('4;4;2/0;2;3', {'cb': 1, 'reenter': 0, 'locked': 1, 'cbthrow': 2}, 200000, 'pb2')]}
 
 
-PARTS = [C20Lr(), C20Guarded(), C20Deferred(), C20Holder(), C20Atomic(), C20DD()]
+class C20Cow(C04):
+    """the payload's copy constructor throws inside cow_guarded::lock(): the caller gets the exception, the inner read section and
+    the writer mutex are released, nothing is published, later writers and readers proceed"""
+    pid = 'C20'
+    tags = ('C20', 'C04')
+    monitors = [('CowMon.tla', 'CowMon.cfg')]
+    conf = None
+    san = {'quick': False, 'thorough': False}
+    models = {'quick': [ModelRun('CowMC.tla', 'Cow_throw.cfg', workers=16, note='1-2 throwing copy constructions in lock()')],
+              'thorough': [ModelRun('CowMC.tla', 'Cow_throw.cfg', workers=16)]}
+    programs = {'quick': [('%s;%s/%s/%s;%s' % (COWW, COWW, COWW, COWR, COWR), {'copythrows': 2}, 500, 'random'), ('0;0/0;1/4;4', {'copythrows': 1}, 400, 'random'),
+                          ('0;0/0', {'copythrows': 1}, 3000, 'pb1')],
+                'thorough': [('%s;%s/%s/%s;%s' % (COWW, COWW, COWW, COWR, COWR), {'copythrows': 2}, 12000, 'random'), ('0;0/0;1/4;4', {'copythrows': 2}, 10000, 'random'),
+                             ('0;0/0;0/3', {'copythrows': 2}, 200000, 'pb2')]}
+
+
+PARTS = [C20Lr(), C20Guarded(), C20Deferred(), C20Holder(), C20Atomic(), C20DD(), C20Cow()]
 DEF = PARTS[0]
 DEF2 = PARTS[1]
 
